@@ -224,6 +224,24 @@ class Gen(object):
             op["atype"] = st.pick(ACTION_TYPES, "atype")
             op["start"] = self.fields()
         op["body"] = self.body(depth + 1, inner_nopause, in_action=True)
+        if self.cfg.get("wide") and not getattr(self, "_in_burst", False) and st.choose(6, "wide-body") == 5:
+            # a batch action: 19-34 more direct children (messages and small child actions), so that
+            # positions reach two digits and beyond
+            burst = []
+            left, self.left = self.left, 0
+            self._in_burst = True
+            for _ in range(19 + st.choose(16, "wide-n")):
+                if st.choose(3, "wide-kind") == 2:
+                    burst.append(self.act(self.max_depth, inner_nopause))
+                else:
+                    burst.append(self.plain_msg())
+            self.left = left
+            self._in_burst = False
+            # (before a raise that ends the body, if there is one)
+            if op["body"] and op["body"][-1].get("op") == "raise":
+                op["body"][-1:-1] = burst
+            else:
+                op["body"].extend(burst)
         op["catch"] = st.chance(self.p_catch, "catch")
         if st.choose(6, "refinish") == 5:
             op["fin"] = 1 + st.choose(2)
